@@ -32,7 +32,35 @@ func (c c13Case) threshold() float64 {
 }
 
 func checkC13(c c13Case, o *Obs) error {
-	th := c.threshold()
+	// the drawn threshold first, then every frequency that actually occurs in the per-sequence output
+	// (exactly k/n as a float64, the value a user gets from counting), up to 8 of them
+	ks, n, err := checkC13At(c, o, c.threshold(), true)
+	if err != nil {
+		return err
+	}
+	o.LabelIf(n >= 25, "sequences>=25")
+	tried := 0
+	for _, k := range ks {
+		if tried == 8 {
+			break
+		}
+		tried++
+		if _, _, err := checkC13At(c, nil, float64(k)/float64(n), false); err != nil {
+			return err
+		}
+		stats.count("thresholds_equal_to_an_occurring_frequency", 1)
+	}
+	return nil
+}
+
+// checkC13At runs the aggregate mode with threshold th and compares it with the counted per-sequence output.
+// It returns the distinct occurrence counts and the number of sequences.
+func checkC13At(c c13Case, o *Obs, th float64, first bool) ([]int, int, error) {
+	distinct, n, err := checkC13Core(c, o, th)
+	return distinct, n, err
+}
+
+func checkC13Core(c c13Case, o *Obs, th float64) ([]int, int, error) {
 	o.Label("kind:" + c.Kind)
 	var perSeq, agg string
 	var header string
@@ -45,12 +73,12 @@ func checkC13(c c13Case, o *Obs) error {
 		if err := mustRun("snps.SNPs", func() error {
 			return snps.SNPs(strings.NewReader(refTxt), strings.NewReader(alnTxt), s.HardGaps, false, 0, &a)
 		}); err != nil {
-			return err
+			return nil, 0, err
 		}
 		if err := mustRun("snps.SNPs(aggregate)", func() error {
 			return snps.SNPs(strings.NewReader(refTxt), strings.NewReader(alnTxt), s.HardGaps, true, th, &b)
 		}); err != nil {
-			return err
+			return nil, 0, err
 		}
 		perSeq, agg, header = a.String(), b.String(), "SNP,frequency"
 	default:
@@ -60,18 +88,18 @@ func checkC13(c c13Case, o *Obs) error {
 		var err error
 		perSeq, err = runVariants(vc, varRunOpts{Start: -1, End: -1, AppendSNP: c.AppendSNP})
 		if err != nil {
-			return fmt.Errorf("%v\n%s", err, vc.describe())
+			return nil, 0, fmt.Errorf("%v\n%s", err, vc.describe())
 		}
 		agg, err = runVariants(vc, varRunOpts{Start: -1, End: -1, AppendSNP: c.AppendSNP, Aggregate: true, Threshold: th})
 		if err != nil {
-			return fmt.Errorf("%v\n%s", err, vc.describe())
+			return nil, 0, fmt.Errorf("%v\n%s", err, vc.describe())
 		}
 		header = "mutation,frequency"
 	}
 	// expected from the per-sequence output
 	pl := splitLines(perSeq)
 	if len(pl) < 1 {
-		return fmt.Errorf("empty per-sequence output")
+		return nil, 0, fmt.Errorf("empty per-sequence output")
 	}
 	rows := pl[1:]
 	n := len(rows)
@@ -107,17 +135,17 @@ func checkC13(c c13Case, o *Obs) error {
 	}
 	al := splitLines(agg)
 	if len(al) < 1 || al[0] != header {
-		return fmt.Errorf("bad aggregate header: %q", trunc(agg, 200))
+		return nil, 0, fmt.Errorf("bad aggregate header: %q", trunc(agg, 200))
 	}
 	got := map[string]string{}
 	var order []string
 	for _, l := range al[1:] {
 		i := strings.LastIndexByte(l, ',')
 		if i < 0 {
-			return fmt.Errorf("bad aggregate line %q", l)
+			return nil, 0, fmt.Errorf("bad aggregate line %q", l)
 		}
 		if _, dup := got[l[:i]]; dup {
-			return fmt.Errorf("mutation %q listed twice in --aggregate output", l[:i])
+			return nil, 0, fmt.Errorf("mutation %q listed twice in --aggregate output", l[:i])
 		}
 		got[l[:i]] = l[i+1:]
 		order = append(order, l[:i])
@@ -125,22 +153,22 @@ func checkC13(c c13Case, o *Obs) error {
 	for m, f := range want {
 		g, ok := got[m]
 		if !ok {
-			return fmt.Errorf("--aggregate (threshold %v) omits %s which occurs in %d of %d sequences (frequency %s)\nper-sequence:\n%s\naggregate:\n%s", th, m, counts[m], n, f, trunc(perSeq, 800), trunc(agg, 800))
+			return nil, 0, fmt.Errorf("--aggregate (threshold %v) omits %s which occurs in %d of %d sequences (frequency %s)\nper-sequence:\n%s\naggregate:\n%s", th, m, counts[m], n, f, trunc(perSeq, 800), trunc(agg, 800))
 		}
 		if g != f {
-			return fmt.Errorf("--aggregate gives %s frequency %s; it occurs in %d of %d sequences = %s\nper-sequence:\n%s", m, g, counts[m], n, f, trunc(perSeq, 800))
+			return nil, 0, fmt.Errorf("--aggregate gives %s frequency %s; it occurs in %d of %d sequences = %s\nper-sequence:\n%s", m, g, counts[m], n, f, trunc(perSeq, 800))
 		}
 	}
 	for m := range got {
 		if _, ok := want[m]; !ok {
-			return fmt.Errorf("--aggregate (threshold %v) lists %s (%s) but per-sequence count is %d of %d\nper-sequence:\n%s", th, m, got[m], counts[m], n, trunc(perSeq, 800))
+			return nil, 0, fmt.Errorf("--aggregate (threshold %v) lists %s (%s) but per-sequence count is %d of %d\nper-sequence:\n%s", th, m, got[m], counts[m], n, trunc(perSeq, 800))
 		}
 	}
 	if c.Kind != "snps" && c.Var.CLI && gofastaBin() != "" {
 		dir, cleanup := caseDir("c13cli")
 		defer cleanup()
 		if err := cliAgree(o, "variants --aggregate", agg, c.Var.cliArgs(dir, varRunOpts{Start: -1, End: -1, AppendSNP: c.AppendSNP, Aggregate: true, Threshold: th})...); err != nil {
-			return err
+			return nil, 0, err
 		}
 	}
 	if c.Kind == "snps" && c.Snps.CLI && gofastaBin() != "" {
@@ -152,7 +180,7 @@ func checkC13(c c13Case, o *Obs) error {
 			args = append(args, "--hard-gaps")
 		}
 		if err := cliAgree(o, "snps --aggregate", agg, args...); err != nil {
-			return err
+			return nil, 0, err
 		}
 	}
 	// ordered by genomic position
@@ -162,14 +190,14 @@ func checkC13(c c13Case, o *Obs) error {
 		if c.Kind == "snps" {
 			p, err := strconv.Atoi(m[1 : len(m)-1])
 			if err != nil {
-				return fmt.Errorf("bad SNP %q", m)
+				return nil, 0, fmt.Errorf("bad SNP %q", m)
 			}
 			lo, hi = p, p
 		} else {
 			var err error
 			lo, hi, err = mutInterval(m, anno)
 			if err != nil {
-				return err
+				return nil, 0, err
 			}
 			if strings.HasPrefix(m, "aa:") {
 				lo, hi = lo-2, hi+2 // any coordinate of the codon (gofasta: first base of the codon, computed from its last)
@@ -179,10 +207,19 @@ func checkC13(c c13Case, o *Obs) error {
 			cur = lo
 		}
 		if cur > hi {
-			return fmt.Errorf("--aggregate output is not ordered by genomic position at %s:\n%s", m, trunc(agg, 800))
+			return nil, 0, fmt.Errorf("--aggregate output is not ordered by genomic position at %s:\n%s", m, trunc(agg, 800))
 		}
 	}
-	return nil
+	var distinct []int
+	seenK := map[int]bool{}
+	for _, k := range counts {
+		if !seenK[k] {
+			seenK[k] = true
+			distinct = append(distinct, k)
+		}
+	}
+	sort.Ints(distinct)
+	return distinct, n, nil
 }
 
 func genC13(t *rapid.T) c13Case {
@@ -198,6 +235,12 @@ func genC13(t *rapid.T) c13Case {
 				s.Recs[i].Seq = s.Recs[rapid.IntRange(0, i-1).Draw(t, "copyOf")].Seq
 			}
 		}
+		if rapid.IntRange(0, 2).Draw(t, "manySeqs") == 0 {
+			base := len(s.Recs)
+			for k := rapid.IntRange(20, 125).Draw(t, "nDupMany"); k > 0; k-- {
+				s.Recs = append(s.Recs, FaRec{ID: fmt.Sprintf("dup%d", k), Seq: s.Recs[rapid.IntRange(0, base-1).Draw(t, "dupOf")].Seq})
+			}
+		}
 		c.Snps = &s
 		n = len(s.Recs)
 	} else {
@@ -206,6 +249,9 @@ func genC13(t *rapid.T) c13Case {
 			// recurrences: duplicate some query rows under new names
 			qs := vc.Msa.queries()
 			extra := rapid.IntRange(0, 5).Draw(t, "nDup")
+			if rapid.IntRange(0, 2).Draw(t, "manySeqs") == 0 {
+				extra = rapid.IntRange(20, 125).Draw(t, "nDupMany")
+			}
 			for k := 0; k < extra && len(qs) > 0; k++ {
 				src := qs[rapid.IntRange(0, len(qs)-1).Draw(t, "dupOf")]
 				vc.Msa.Rows = append(vc.Msa.Rows, FaRec{ID: fmt.Sprintf("dup%d", k), Seq: src.Seq})
@@ -214,6 +260,9 @@ func genC13(t *rapid.T) c13Case {
 		} else {
 			names := vc.Sam.queryNames()
 			extra := rapid.IntRange(0, 4).Draw(t, "nDup")
+			if rapid.IntRange(0, 2).Draw(t, "manySeqs") == 0 {
+				extra = rapid.IntRange(20, 110).Draw(t, "nDupMany")
+			}
 			for k := 0; k < extra; k++ {
 				src := names[rapid.IntRange(0, len(names)-1).Draw(t, "dupOf")]
 				for _, r := range vc.Sam.recordsOf(src) {
@@ -238,7 +287,5 @@ func genC13(t *rapid.T) c13Case {
 	}
 	return c
 }
-
-var _ = sort.Strings
 
 func TestC13(t *testing.T) { runProp(t, "C13", genC13, checkC13) }
